@@ -332,7 +332,9 @@ func visitInstr(fr *frame, instr ssa.Instruction) continuation {
 		fr.env[instr] = sl[:ln]
 
 	case *ssa.MakeMap:
-		fr.env[instr] = newOmap(instr.Type().Underlying().(*types.Map).Key())
+		nm := newOmap(instr.Type().Underlying().(*types.Map).Key())
+		nm.site = fr.fn.String()
+		fr.env[instr] = nm
 
 	case *ssa.Range:
 		fr.env[instr] = rangeIter(fr, fr.get(instr.X), instr.X.Type())
